@@ -269,11 +269,23 @@ type c07Obs struct {
 	Payloads [][]byte
 	Name     string
 	OwnKeys  [][]string
+	Panic    string
 }
 
 const c07TagW, c07MinW = 3, 36
 
-func (c C07Case) emit() c07Obs {
+// emit builds the chain and issues the log call; a panic of the library is an observation
+func (c C07Case) emit() (o c07Obs) {
+	defer func() {
+		if p := recover(); p != nil {
+			o.Panic = fmt.Sprint(p)
+			events = nil
+		}
+	}()
+	return c.emit1()
+}
+
+func (c C07Case) emit1() c07Obs {
 	if c.Inherit {
 		slog.AddFlags(slog.LattrsR)
 	} else {
@@ -696,6 +708,9 @@ func c07KeysOf(as []GAttr) []string {
 
 // the direct oracle: "" = holds, else (key, description); also returns the timestamp text
 func c07Oracle(c C07Case, o c07Obs) (key, desc, ts string) {
+	if o.Panic != "" {
+		return "C07/panic", "building the loggers or the log call panicked: " + o.Panic, ""
+	}
 	if len(o.Payloads) != 1 {
 		return "C07/record-count", fmt.Sprintf("%d payloads for one log call", len(o.Payloads)), ""
 	}
